@@ -109,7 +109,7 @@ for _nb in (1, 2, 3):
     _in_band = ' or '.join(f"(frequency_to_n({b}['f_min'], grid) <= n0 + k and n0 + k <= frequency_to_n({b}['f_max'], grid))"
                            for b in _bands)
     contract('gnpy.topology.spectrum_assignment.create_oms_bitmap',
-             name=f'gnpy.topology.spectrum_assignment.create_oms_bitmap[{_nb} band(s)]', props=['C15'],
+             name=f'gnpy.topology.spectrum_assignment.create_oms_bitmap[{_nb} band(s)]', props=['C15', 'C14'],
              params={'oms': obj('OMS', el_list=lst()), 'equipment': dct(__common_range__=lst(*[BAND] * _nb)),
                      'f_min': real(), 'f_max': real(), 'grid': real()}, spec=SPEC_BM,
              let={'n0': 'frequency_to_n(f_min, grid)', 'n1': 'frequency_to_n(f_max, grid)'},
